@@ -214,7 +214,7 @@ MUT=[
 		}
 		formatted = formatted[n:]
 	}
-	return nil''')], ["C17"], False),
+	return nil''')], ["C17"], True),  # chunked writing of the complete file is still written once (DESIGN.md section 14): expected quiet
  ("D5-writer-error-ignored", [('pkg/moq/moq.go','''	if _, err := w.Write(formatted); err != nil {
 		return err
 	}
@@ -238,7 +238,7 @@ for name, edits, props, benign in MUT:
         if b.returncode!=0: print(name,'DOES NOT BUILD',b.stdout[:300]); ok=False
     if ok:
         for pr in props:
-            r=sh(f'cd /verif && ./vcheck check -prop {pr} -tier quick 2>&1 | grep -v ^WARNING')
+            r=sh(f'cd /verif && VERIF_OUT=/tmp/selfout ./vcheck check -prop {pr} -tier quick 2>&1 | grep -v ^WARNING')
             v=[l for l in r.stdout.splitlines() if l.startswith('VIOLATION')]
             last=[l for l in r.stdout.splitlines() if not l.startswith('VIOLATION')][-1:]
             row['checks'][pr]={'violations':len(v),'first':(v[0][:230] if v else ''),'tail':(last[0][:200] if last else '')}
